@@ -28,27 +28,33 @@ Proof.
   destruct t as [k s a|k cs a]; cbn [sc kind_of tsig text_of]; [reflexivity|].
   intros H E. rewrite E in H. discriminate.
 Qed.
+Lemma sc_leaf_tok k s a : sc (Leaf k s a) = true -> inner_kind k = false -> leaf_ok k s (Leaf k s a) = true.
+Proof. cbn [sc]. intros H E. rewrite E in H. exact H. Qed.
 Lemma sc_quiet t : sc t = true -> quiet_leaf (kind_of t) = true -> tsig t = [].
 Proof.
-  destruct t as [k s a|k cs a]; cbn [sc kind_of tsig].
-  - unfold leaf_ok. intros H E. rewrite E in H. destruct (negb (inner_kind k)); [|discriminate]. cbn in H.
+  destruct t as [k s a|k cs a]; cbn [kind_of tsig].
+  - intros H E. assert (Hi : inner_kind k = false) by (destruct k; try reflexivity; discriminate E).
+    pose proof (sc_leaf_tok _ _ _ H Hi) as H1. unfold leaf_ok in H1. rewrite E in H1.
     destruct (sig s); [reflexivity|discriminate].
-  - intros H E. destruct k; discriminate.
+  - cbn [sc]. intros H E. destruct k; discriminate.
 Qed.
 Lemma sc_fixed t lit : sc t = true -> fixed_leaf (kind_of t) = Some lit -> tsig t = sig lit.
 Proof.
-  destruct t as [k s a|k cs a]; cbn [sc kind_of tsig].
-  - unfold leaf_ok. intros H E. rewrite E in H.
-    apply andb_prop in H. destruct H as [H _]. apply andb_prop in H. destruct H as [_ H].
-    apply (proj1 (str_eqb_eq _ _)) in H. subst. reflexivity.
-  - intros H E. apply andb_prop in H. destruct H as [H _]. apply andb_prop in H. destruct H as [H _].
+  destruct t as [k s a|k cs a]; cbn [kind_of tsig].
+  - intros H E. assert (Hi : inner_kind k = false) by (destruct k; try reflexivity; discriminate E).
+    pose proof (sc_leaf_tok _ _ _ H Hi) as H1. unfold leaf_ok in H1. rewrite E in H1.
+    apply andb_prop in H1. destruct H1 as [H1 _]. apply andb_prop in H1. destruct H1 as [_ H1].
+    apply (proj1 (str_eqb_eq _ _)) in H1. subst. reflexivity.
+  - cbn [sc]. intros H E. apply andb_prop in H. destruct H as [H _]. apply andb_prop in H. destruct H as [H _].
     destruct k; try discriminate H; discriminate E.
 Qed.
 Lemma sc_comment t : sc t = true -> is_comment_node t = true -> comment_sig_ok t = true.
 Proof.
-  destruct t as [k s a|k cs a]; cbn [sc]; unfold is_comment_node; cbn [kind_of].
-  - unfold leaf_ok. intros H E. apply andb_prop in H. destruct H as [_ H]. destruct k; try discriminate E; exact H.
-  - intros H E. apply andb_prop in H. destruct H as [H _]. apply andb_prop in H. destruct H as [H _].
+  destruct t as [k s a|k cs a]; unfold is_comment_node; cbn [kind_of].
+  - intros H E. assert (Hi : inner_kind k = false) by (destruct k; try reflexivity; discriminate E).
+    pose proof (sc_leaf_tok _ _ _ H Hi) as H1. unfold leaf_ok in H1. apply andb_prop in H1. destruct H1 as [_ H1].
+    destruct k; try discriminate E; exact H1.
+  - cbn [sc]. intros H E. apply andb_prop in H. destruct H as [H _]. apply andb_prop in H. destruct H as [H _].
     destruct k; try discriminate E; discriminate H.
 Qed.
 Lemma sc_kids k cs a : sc (Inner k cs a) = true -> knode_ok k cs = true /\ Forall (fun c => sc c = true) cs.
@@ -862,7 +868,7 @@ Section SigConv.
   Lemma tsig_kids' t kids : map bt kids = children t -> inner_kind (kind_of t) = true -> sc t = true -> tsig t = tsigs kids.
   Proof.
     intros Hm Hk Hs. destruct t as [k s a|k cs a]; cbn [children kind_of tsig sc] in *.
-    - unfold leaf_ok in Hs. rewrite Hk in Hs. discriminate.
+    - rewrite Hk in Hs. destruct s; [|discriminate]. destruct kids; [reflexivity|discriminate].
     - unfold tsigs. rewrite <- Hm, map_map. reflexivity.
   Qed.
   (* ---------- content blocks, strong, emph, raw, ref ---------- *)
@@ -1205,7 +1211,7 @@ Section SigConv.
     knode_ok (kind_of t) (children t) = true /\ Forall (fun c => sc c = true) (children t).
   Proof.
     destruct t as [k s a|k cs a]; cbn [kind_of children]; intros Hs Hk.
-    - cbn in Hs. unfold leaf_ok in Hs. rewrite Hk in Hs. discriminate.
+    - cbn [sc] in Hs. rewrite Hk in Hs. apply andb_prop in Hs. destruct Hs as [_ Hs]. split; [exact Hs|constructor].
     - apply (sc_kids _ _ _ Hs).
   Qed.
   (* ---------- code blocks ---------- *)
@@ -1496,11 +1502,154 @@ Section SigConv.
     Qed.
   End Delimited.
 
+  (* ---------- list items ---------- *)
+  Section Items.
+    Variable kids : list bundle.
+    Hypothesis Hgood : Forall sgood kids.
+    Hypothesis Hscope : Forall (fun b => sc (bt b) = true) kids.
+
+    Lemma cons_convert_list_item_like c :
+      all_kept (fun c => match kind_of c with
+                         | KListMarker | KEnumMarker | KTermMarker | KColon | KParbreak => true
+                         | KMarkup => negb (match children c with [] => true | _ => false end)
+                         | _ => false end) (map bt kids) = true ->
+      post (convert_list_item_like swidth cfg kids c) (good_doc (tsigs kids)).
+    Proof.
+      intros Hk. unfold convert_list_item_like. eapply post_bind.
+      - apply flow_like_sig. apply Forall_forall. intros child Hin. rewrite Forall_forall in Hgood, Hscope.
+        pose proof (Hgood child Hin) as Hsg. pose proof (Hscope child Hin) as Hsc.
+        pose proof (all_kept_in _ _ (bt child) Hk (in_map bt _ _ Hin)) as Hkeep. cbn beta in Hkeep.
+        split; [exact Hsc|]. intros Hgen c0. rewrite Hgen in Hkeep. cbn [orb] in Hkeep.
+        assert (Hkids : (match bkids child with [] => true | _ => false end) = (match children (bt child) with [] => true | _ => false end)).
+        { rewrite <- (good_shape _ _ Hsg). destruct (bkids child); reflexivity. }
+        unfold bk in *. destruct (kind_of (bt child)) eqn:Ekc;
+          lazymatch type of Ekc with
+          | _ = KListMarker => apply post_ret; fsimp; apply good_tx; [exact Hsc|unfold bk; rewrite Ekc; reflexivity]
+          | _ = KEnumMarker => apply post_ret; fsimp; apply good_tx; [exact Hsc|unfold bk; rewrite Ekc; reflexivity]
+          | _ = KTermMarker => apply post_ret; fsimp; apply good_tx; [exact Hsc|unfold bk; rewrite Ekc; reflexivity]
+          | _ = KColon => apply post_ret; fsimp; apply good_tx; [exact Hsc|unfold bk; rewrite Ekc; reflexivity]
+          | _ = KParbreak =>
+              apply post_ret; fsimp; rewrite (sc_quiet _ Hsc) by (rewrite Ekc; reflexivity);
+              split; [apply dsig_repeat_quiet; reflexivity|apply wsig_repeat; reflexivity]
+          | _ = KSpace =>
+              cbn [kind_eqb andb]; destruct (has_lb _); apply post_ret; fsimp;
+              rewrite (sc_quiet _ Hsc) by (rewrite Ekc; reflexivity); [split; reflexivity|reflexivity]
+          | _ = KMarkup =>
+              cbn [kind_eqb andb]; rewrite Hkids; destruct (children (bt child)) eqn:Ech; cbn [negb];
+              [ apply post_ret; fsimp; cbn in Hkeep; unfold sig_empty in Hkeep; destruct (tsig (bt child)); [reflexivity|discriminate Hkeep]
+              | eapply post_bind; [apply (sgood_call child (RMarkup c0 ScItem) Hsg Hsc); cbn; unfold is_kind; rewrite Ekc; reflexivity|];
+                intros d Hd; apply post_ret; fsimp; exact Hd ]
+          | _ =>
+              cbn [kind_eqb andb]; apply post_ret; fsimp; cbn in Hkeep; unfold sig_empty in Hkeep;
+              destruct (tsig (bt child)); [reflexivity|discriminate Hkeep]
+          end.
+      - intros d [Hd Wd]. apply post_ret. split; [rewrite dsig_nest; exact Hd|rewrite wsig_nest; exact Wd].
+    Qed.
+  End Items.
+
+  (* ---------- closures and for loops (look-ahead state machines) ---------- *)
+  Section Stateful.
+    Variable kids : list bundle.
+    Hypothesis Hgood : Forall sgood kids.
+    Hypothesis Hscope : Forall (fun b => sc (bt b) = true) kids.
+
+    Lemma cons_optional_paren_expr c child ub :
+      sgood child -> sc (bt child) = true ->
+      post (convert_expr_with_optional_paren swidth cfg c child ub) (good_doc (tsig (bt child))).
+    Proof.
+      intros Hsg Hsc. unfold convert_expr_with_optional_paren.
+      destruct (c_supp c || _); [apply (sgood_call child (RExpr c) Hsg Hsc); reflexivity|].
+      assert (Hop : forall d op cl, sig op = [] -> sig cl = [] -> good_doc (tsig (bt child)) d ->
+                                    good_doc (tsig (bt child)) (optional_paren swidth cfg d op cl)).
+      { intros d op cl Ho Hc [Hd Wd]. unfold optional_paren. split.
+        - rewrite dsig_group, dsig_append, dsig_nest, dsig_append. cbn [dsig flat_alt]. rewrite Hd. cbn. rewrite app_nil_r. reflexivity.
+        - rewrite wsig_group. apply wsig_append; [rewrite wsig_nest; apply wsig_append; [|exact Wd]|].
+          + apply wsig_flat_alt; [rewrite dsig_append, dsig_text, Ho; reflexivity|apply wsig_append; [apply wsig_text|reflexivity]|reflexivity].
+          + apply wsig_flat_alt; [rewrite dsig_append, dsig_text, Hc; reflexivity|apply wsig_append; [reflexivity|apply wsig_text]|reflexivity]. }
+      destruct ub; (eapply post_bind; [apply (sgood_call child (RExpr _) Hsg Hsc); reflexivity|]); intros d Hd; apply post_ret; apply Hop; auto.
+    Qed.
+
+    Definition la_code (la : closure_la) : nat := match la with LaName => 0 | LaParams => 1 | LaBody => 2 end.
+
+    Lemma cons_convert_closure t c :
+      closure_okb (map bt kids) (match closure_name t with Some _ => 0%nat | None => 1%nat end) = true ->
+      post (convert_closure swidth cfg t kids c) (good_doc (tsigs kids)).
+    Proof.
+      intros Hok. unfold convert_closure.
+      apply (flow_like_iter_sig _ _ _ _ (fun la rest => closure_okb (map bt rest) (la_code la) = true)).
+      2:{ destruct (closure_name t); exact Hok. }
+      clear Hok. induction kids as [|child rest IH]; cbn [fchildren]; [exact I|].
+      inversion Hgood as [|? ? Hsg Hgr]; subst. inversion Hscope as [|? ? Hsc Hsr]; subst.
+      split; [|apply IH; assumption]. split; [exact Hsc|]. split.
+      - (* skipped children keep the state *)
+        intros Hskip la Hla. cbn [map closure_okb] in Hla.
+        apply Bool.orb_true_iff in Hskip. destruct Hskip as [Hg|Hsp].
+        + rewrite Hg in Hla. cbn in Hla. exact Hla.
+        + unfold bk in Hsp. apply keq in Hsp. unfold is_generic, is_comment_node, is_expr in Hla. rewrite !Hsp in Hla. cbn in Hla.
+          destruct la; cbn in Hla; apply andb_prop in Hla; apply Hla.
+      - intros Hgen la c0 Hla. cbn [map closure_okb] in Hla. rewrite Hgen in Hla. cbn [orb] in Hla. unfold bk.
+        destruct (kind_eqb (kind_of (bt child)) KEq) eqn:E1.
+        { apply post_ret. cbn [fst snd]. split; [fsimp; apply (good_lit_fixed _ _ Hsc); unfold bk; apply keq in E1; rewrite E1; reflexivity|exact Hla]. }
+        destruct (kind_eqb (kind_of (bt child)) KArrow) eqn:E2.
+        { apply post_ret. cbn [fst snd]. split; [fsimp; apply (good_lit_fixed _ _ Hsc); unfold bk; apply keq in E2; rewrite E2; reflexivity|exact Hla]. }
+        cbn [orb] in Hla.
+        destruct la; cbn [la_code] in Hla.
+        + destruct (kind_eqb (kind_of (bt child)) KIdent) eqn:E3.
+          * apply post_ret. cbn [fst snd]. split; [fsimp; apply good_trivia; [exact Hsc|unfold bk; apply keq in E3; rewrite E3; reflexivity]|exact Hla].
+          * apply andb_prop in Hla. destruct Hla as [He Hla]. apply post_ret. cbn [fst snd]. split; [fsimp|exact Hla].
+            unfold sig_empty in He. destruct (tsig (bt child)); [reflexivity|discriminate].
+        + destruct (kind_eqb (kind_of (bt child)) KParams) eqn:E3.
+          * eapply post_bind; [apply (sgood_call child (RParams c0 _) Hsg Hsc); cbn; unfold is_kind; exact E3|].
+            intros d Hd. apply post_ret. cbn [fst snd]. split; [fsimp; exact Hd|exact Hla].
+          * apply andb_prop in Hla. destruct Hla as [He Hla]. apply post_ret. cbn [fst snd]. split; [fsimp|exact Hla].
+            unfold sig_empty in He. destruct (tsig (bt child)); [reflexivity|discriminate].
+        + destruct (is_expr (bt child)) eqn:E3.
+          * eapply post_bind; [apply cons_optional_paren_expr; assumption|].
+            intros d Hd. apply post_ret. cbn [fst snd]. split; [fsimp; exact Hd|exact Hla].
+          * apply andb_prop in Hla. destruct Hla as [He Hla]. apply post_ret. cbn [fst snd]. split; [fsimp|exact Hla].
+            unfold sig_empty in He. destruct (tsig (bt child)); [reflexivity|discriminate].
+    Qed.
+
+    Definition for_code (la : for_la) : nat := match la with LaPattern => 0 | LaIterable => 1 | LaForBody => 2 end.
+
+    Lemma cons_convert_for_loop c :
+      for_okb (map bt kids) 0 = true -> post (convert_for_loop swidth cfg kids c) (good_doc (tsigs kids)).
+    Proof.
+      intros Hok. unfold convert_for_loop.
+      apply (flow_like_iter_sig _ _ _ _ (fun la rest => for_okb (map bt rest) (for_code la) = true)); [|exact Hok].
+      clear Hok. induction kids as [|child rest IH]; cbn [fchildren]; [exact I|].
+      inversion Hgood as [|? ? Hsg Hgr]; subst. inversion Hscope as [|? ? Hsc Hsr]; subst.
+      split; [|apply IH; assumption]. split; [exact Hsc|]. split.
+      - intros Hskip la Hla. cbn [map for_okb] in Hla.
+        apply Bool.orb_true_iff in Hskip. destruct Hskip as [Hg|Hsp].
+        + rewrite Hg in Hla. exact Hla.
+        + unfold bk in Hsp. apply keq in Hsp. unfold is_generic, is_comment_node, is_pattern, is_expr in Hla. rewrite !Hsp in Hla. cbn in Hla.
+          destruct la; cbn in Hla; apply andb_prop in Hla; apply Hla.
+      - intros Hgen la c0 Hla. cbn [map for_okb] in Hla. rewrite Hgen in Hla.
+        destruct la; cbn [for_code] in Hla.
+        + destruct (is_pattern (bt child)) eqn:E3.
+          * eapply post_bind; [apply (sgood_call child (RPattern c0) Hsg Hsc); reflexivity|].
+            intros d Hd. apply post_ret. cbn [fst snd]. split; [fsimp; exact Hd|exact Hla].
+          * apply andb_prop in Hla. destruct Hla as [He Hla]. apply post_ret. cbn [fst snd]. split; [fsimp|exact Hla].
+            unfold sig_empty in He. destruct (tsig (bt child)); [reflexivity|discriminate].
+        + destruct (is_expr (bt child)) eqn:E3.
+          * eapply post_bind; [apply cons_optional_paren_expr; assumption|].
+            intros d Hd. apply post_ret. cbn [fst snd]. split; [fsimp; exact Hd|exact Hla].
+          * apply andb_prop in Hla. destruct Hla as [He Hla]. apply post_ret. cbn [fst snd]. split; [fsimp|exact Hla].
+            unfold sig_empty in He. destruct (tsig (bt child)); [reflexivity|discriminate].
+        + destruct (is_expr (bt child)) eqn:E3.
+          * eapply post_bind; [apply (sgood_call child (RExpr c0) Hsg Hsc); reflexivity|].
+            intros d Hd. apply post_ret. cbn [fst snd]. split; [fsimp; exact Hd|exact Hla].
+          * apply andb_prop in Hla. destruct Hla as [He Hla]. apply post_ret. cbn [fst snd]. split; [fsimp|exact Hla].
+            unfold sig_empty in He. destruct (tsig (bt child)); [reflexivity|discriminate].
+    Qed.
+  End Stateful.
+
   (* ---------- dispatch, step, build ---------- *)
   Lemma tsig_kids t kids : map bt kids = children t -> inner_kind (kind_of t) = true -> sc t = true -> tsig t = tsigs kids.
   Proof.
     intros Hm Hk Hs. destruct t as [k s a|k cs a]; cbn [children kind_of tsig sc] in *.
-    - unfold leaf_ok in Hs. rewrite Hk in Hs. discriminate.
+    - rewrite Hk in Hs. destruct s; [|discriminate]. destruct kids; [reflexivity|discriminate].
     - unfold tsigs. rewrite <- Hm, map_map. reflexivity.
   Qed.
 
@@ -1508,7 +1657,7 @@ Section SigConv.
     knode_ok (kind_of t) (children t) = true /\ Forall (fun c => sc c = true) (children t).
   Proof.
     destruct t as [k s a|k cs a]; cbn [kind_of children]; intros Hs Hk.
-    - cbn in Hs. unfold leaf_ok in Hs. rewrite Hk in Hs. discriminate.
+    - cbn [sc] in Hs. rewrite Hk in Hs. apply andb_prop in Hs. destruct Hs as [_ Hs]. split; [exact Hs|constructor].
     - apply (sc_kids _ _ _ Hs).
   Qed.
 
@@ -1602,6 +1751,31 @@ Section SigConv.
         | E : kind_of t = KMathAttach |- _ => inner_case cons_convert_math_attach_like
         | E : kind_of t = KMathRoot |- _ => inner_case cons_convert_math_attach_like
         | E : kind_of t = KMathFrac |- _ => inner_case cons_convert_math_frac
+        | E : kind_of t = KListItem |- _ => inner_case cons_convert_list_item_like
+        | E : kind_of t = KEnumItem |- _ => inner_case cons_convert_list_item_like
+        | E : kind_of t = KTermItem |- _ => inner_case cons_convert_list_item_like
+        | E : kind_of t = KLoopBreak |- _ =>
+            let Hk := fresh "Hk" in
+            assert (Hk : inner_kind (kind_of t) = true) by (rewrite E; reflexivity);
+            pose proof (node_clause Hk) as Hclause; rewrite E in Hclause; cbn [knode_ok] in Hclause;
+            apply (proj1 (str_eqb_eq _ _)) in Hclause; rewrite tsigl_map in Hclause;
+            apply post_ret; rewrite (tsig_kids t kids Hshape Hk Hsc), Hclause; exact (good_text [98; 114; 101; 97; 107])
+        | E : kind_of t = KLoopContinue |- _ =>
+            let Hk := fresh "Hk" in
+            assert (Hk : inner_kind (kind_of t) = true) by (rewrite E; reflexivity);
+            pose proof (node_clause Hk) as Hclause; rewrite E in Hclause; cbn [knode_ok] in Hclause;
+            apply (proj1 (str_eqb_eq _ _)) in Hclause; rewrite tsigl_map in Hclause;
+            apply post_ret; rewrite (tsig_kids t kids Hshape Hk Hsc), Hclause; exact (good_text [99; 111; 110; 116; 105; 110; 117; 101])
+        | E : kind_of t = KClosure |- _ =>
+            let Hk := fresh "Hk" in
+            assert (Hk : inner_kind (kind_of t) = true) by (rewrite E; reflexivity);
+            pose proof (node_clause Hk) as Hclause; rewrite E in Hclause; cbn [knode_ok] in Hclause;
+            rewrite (tsig_kids t kids Hshape Hk Hsc);
+            apply cons_convert_closure; [exact Hgood|apply kids_scope; exact Hk|];
+            replace (closure_name t) with (closure_name (Inner KClosure (map bt kids) no_attrs))
+              by (unfold closure_name; cbn [children]; rewrite Hshape; reflexivity);
+            exact Hclause
+        | E : kind_of t = KForLoop |- _ => inner_case cons_convert_for_loop
         | E : kind_of t = KArray |- _ => inner_case cons_convert_array
         | E : kind_of t = KDict |- _ => inner_case cons_convert_dict
         | E : kind_of t = KUnary |- _ => inner_case cons_convert_unary
@@ -1617,7 +1791,7 @@ Section SigConv.
         | _ =>
             first [ apply post_ret; first [apply good_verbatim | apply leaf_token_good; rewrite E; reflexivity]
                   | intros n d n' H; discriminate H
-                  | exfalso; destruct t as [k0 s0 a0|k0 cs0 a0]; cbn in E; subst; cbn in Hsc; discriminate Hsc ]
+                  | exfalso; destruct t as [k0 s0 a0|k0 cs0 a0]; cbn in E; subst; cbn in Hsc; try (destruct s0); cbn in Hsc; discriminate Hsc ]
         end.
     Qed.
   End Node.
@@ -1712,7 +1886,7 @@ Section SigConv.
             unfold args_ok in Hao; apply andb_prop in Hao; destruct Hao as [_ Hw]; unfold args_main in Hw; rewrite Hhp in Hw; exact Hw
         | |- post (convert_import_item_path _ _ _) _ => rename Hfit into E; inner_case2 cons_convert_import_item_path
         | |- post (convert_import_item_renamed _ _ _) _ => rename Hfit into E; inner_case2 cons_convert_import_item_renamed
-        | _ => exfalso; destruct t as [k0 s0 a0|k0 cs0 a0]; cbn in Hfit; subst; cbn in Hsc; discriminate Hsc
+        | _ => exfalso; destruct t as [k0 s0 a0|k0 cs0 a0]; cbn in Hfit; subst; cbn in Hsc; try (destruct s0); cbn in Hsc; discriminate Hsc
         end.
     Qed.
   End Node2.
